@@ -5,6 +5,8 @@ CONSTANTS
   MaxM = 2
   MaxTotal = 3
   ZeroPairs = "split"
+  TB = 0
+  FB = 0
   WithTwins = TRUE
   ExportAt = "matrix"
 CONSTRAINT Export
